@@ -4,6 +4,9 @@
 //
 //	fault choice at every audit-sink operation (the audit file lives in the
 //	in-memory vos file system: overlay "os" -> verif/shim/vos in lib/audit);
+//	the answers include errors, "k bytes then an error" and a short count
+//	without an error, also for a write(2) the program issues itself on the raw
+//	descriptor (SyscallConn): there the real kernel cuts it short (RLIMIT_FSIZE);
 //
 // (b) schedule exploration (mc.Sched, preemption-bounded): 2-3 concurrent /sign
 //
@@ -232,6 +235,50 @@ var reqAlphabet = []reqSpec{
 
 // ---- (a) faults ----
 
+// writeAnswer is what the environment answers to one write(2) on the audit file.
+type writeAnswer struct {
+	errno syscall.Errno // 0: all bytes taken; vos.ShortOK: a short count and no error
+	short int           // bytes taken: 0, 1, -1 = half of the buffer, -2 = all but the last byte
+}
+
+// bytes: n is the size of the buffer, -1 when the program makes the system call
+// itself on a raw descriptor (the size is then not known beforehand: "half" is
+// 64 bytes - every audit record is longer, checked by vos.RawLimitHit).
+func (w writeAnswer) bytes(n int) int {
+	k := n - 1
+	switch {
+	case w.short >= 0:
+		k = w.short
+	case n < 0:
+		k = 64
+	case w.short == -1:
+		k = n / 2
+	}
+	if w.errno == vos.ShortOK && k < 1 {
+		k = 1 // write(2) on a regular file does not return 0 for a non-empty buffer
+	}
+	return k
+}
+
+// isShort: the answer really cuts a write of n bytes short (a "short count" that
+// covers the whole buffer is an ordinary successful write).
+func (w writeAnswer) isShort(n int) bool {
+	return w.errno == vos.ShortOK && (n < 0 || w.bytes(n) < n)
+}
+
+func (w writeAnswer) what() string {
+	switch w.short {
+	case -1:
+		return "half"
+	case -2:
+		return "all-but-the-last"
+	}
+	return fmt.Sprint(w.short)
+}
+
+var writeAnswers = []writeAnswer{{0, 0}, {syscall.ENOSPC, 0}, {syscall.EIO, 0}, {syscall.ENOSPC, -1},
+	{vos.ShortOK, 1}, {vos.ShortOK, -1}, {vos.ShortOK, -2}}
+
 func faultPhase() {
 	sinks := []sinkCfg{{File: true, Dir: true}, {File: true, Dir: false}, {File: true, Amqp: true, Dir: true}, {Dir: true}}
 	maxLen := 3
@@ -256,12 +303,9 @@ func faultPhase() {
 	}
 	gen(nil)
 	openFaults := []syscall.Errno{0, syscall.EACCES, syscall.EISDIR, syscall.ENOSPC}
-	type wf struct {
-		errno syscall.Errno
-		short int // bytes written before the error (-1 = half)
-	}
-	writeFaults := []wf{{0, 0}, {syscall.ENOSPC, 0}, {syscall.EIO, 0}, {syscall.ENOSPC, -1}}
+	writeFaults := writeAnswers
 	closeFaults := []syscall.Errno{0, syscall.EIO}
+	otherFaults := []syscall.Errno{0, syscall.EIO}
 	for _, sc := range sinks {
 		for _, h := range hists {
 			st := mc.Explore(mc.Options{MaxDeviations: bound}, func(c *mc.Ctx) {
@@ -280,27 +324,45 @@ func faultPhase() {
 							faultLog = append(faultLog, current+":open:"+e.Error())
 						}
 						return e, 0
-					case "write":
-						f := writeFaults[c.Choose(len(writeFaults), "write")]
-						if f.errno != 0 {
-							sinkFailed[current] = true
-							short := f.short
-							if short < 0 {
-								short = n / 2
-								faulty = true // a torn line is the environment's doing
-							}
-							faultLog = append(faultLog, fmt.Sprintf("%s:write:%s:after-%d-bytes", current, f.errno.Error(), short))
-							return f.errno, short
+					case "write", "writeat":
+						// one write(2) / pwrite(2), whichever way the program issues it
+						f := writeFaults[c.Choose(len(writeFaults), op)]
+						if f.errno == 0 {
+							return 0, 0
 						}
-						return 0, 0
+						k := f.bytes(n)
+						if f.errno == vos.ShortOK && !f.isShort(n) {
+							return 0, 0
+						}
+						if f.errno == vos.ShortOK {
+							// the kernel took k bytes and said so: no error to report. Whether the
+							// request may still succeed is decided by what the file holds.
+							faulty = true
+							faultLog = append(faultLog, fmt.Sprintf("%s:%s:short-count-%s-no-error", current, op, f.what()))
+							return vos.ShortOK, k
+						}
+						sinkFailed[current] = true
+						if k > 0 {
+							faulty = true // a torn line is the environment's doing
+						}
+						faultLog = append(faultLog, fmt.Sprintf("%s:%s:%s:after-%s-bytes", current, op, f.errno.Error(), f.what()))
+						return f.errno, k
 					case "close":
 						e := closeFaults[c.Choose(len(closeFaults), "close")]
 						if e != 0 {
 							faultLog = append(faultLog, current+":close:"+e.Error())
 						}
 						return e, 0
+					default:
+						// seek, stat, read, readat, truncate, sync, chmod ...: whatever else a
+						// sink implementation asks of the descriptor may fail; what the request
+						// may then do is again decided by the file's contents alone
+						e := otherFaults[c.Choose(len(otherFaults), op)]
+						if e != 0 {
+							faultLog = append(faultLog, current+":"+op+":"+e.Error())
+						}
+						return e, 0
 					}
-					return 0, 0
 				}
 				var results []result
 				for _, r := range h {
@@ -328,6 +390,15 @@ func faultPhase() {
 					codes = append(codes, fmt.Sprint(r.Status))
 				}
 				run.Outcome("fault:" + strings.Join(codes, ","))
+				for _, f := range faultLog {
+					// which answers the sink operations were given (not only what came of them)
+					if i := strings.Index(f, ":"); i >= 0 {
+						run.Outcome("fault-answer:" + f[i+1:])
+					}
+				}
+				if vos.RawLimited != vos.RawLimitHit {
+					run.Capped("a write made by the program itself on the raw descriptor stayed below its byte budget: that answer was not exercised")
+				}
 				if sc.File {
 					judge("fault", results, sinkFailed, faulty, desc, map[string]any{"sinks": sc, "history": h, "choices": c.Trace, "labels": c.Labels})
 				} else {
@@ -454,9 +525,16 @@ func standalonePhase() {
 	}
 	defer os.RemoveAll(dir)
 	openFaults := []syscall.Errno{0, syscall.EACCES, syscall.ENOSPC}
-	writeFaults := []syscall.Errno{0, syscall.ENOSPC, syscall.EIO}
+	writeFaults := []writeAnswer{{0, 0}, {syscall.ENOSPC, 0}, {syscall.EIO, 0}, {vos.ShortOK, 1}, {vos.ShortOK, -1}, {vos.ShortOK, -2}}
+	// a short count makes the program write again, and that write is answered
+	// anew: the deviation bound keeps the space finite (every combination of the
+	// open and write errors alone has at most 2 deviations)
+	devs := 2
+	if run.Thorough() {
+		devs = 3
+	}
 	for _, dirExists := range []bool{true, false} {
-		st := mc.Explore(mc.Options{MaxDeviations: -1}, func(c *mc.Ctx) {
+		st := mc.Explore(mc.Options{MaxDeviations: devs}, func(c *mc.Ctx) {
 			vos.Reset()
 			if dirExists {
 				vos.Mkdir("/vfs/audit")
@@ -474,8 +552,17 @@ func standalonePhase() {
 				switch op {
 				case "open":
 					e = openFaults[c.Choose(len(openFaults), "open")]
-				case "write":
-					e = writeFaults[c.Choose(len(writeFaults), "write")]
+				case "write", "writeat":
+					w := writeFaults[c.Choose(len(writeFaults), op)]
+					if w.errno == vos.ShortOK {
+						// a short count without an error: the command may only report
+						// success if the whole record reached the file after all
+						if !w.isShort(n) {
+							return 0, 0
+						}
+						return vos.ShortOK, w.bytes(n)
+					}
+					e = w.errno
 				}
 				if e != 0 {
 					failed = true
@@ -777,9 +864,10 @@ func main() {
 	var keys []string
 	_ = keys
 	sort.Strings(keys)
-	run.Rule("(a) every history of <=3 requests from {sign rsaA/sha256, sign p256A/sha384, refused request} x sink configuration {file, file in missing directory, file+refusing broker, none} x every combination of <=2 (thorough 4) faults over the audit-file operations (open: EACCES/EISDIR/ENOSPC; write: ENOSPC/EIO/half-written; close: EIO); (b) every interleaving with <=3 preemptions for 2 threads and <=2 for 3 threads (thorough: 4 and 3) of concurrent /sign handlers over hooked mutex, token and audit-file operations; (c) the standalone pipeline x all open/write faults; (d) every history of <=2 requests x {broker only, broker + file} x every choice of what a loopback AMQP broker does with each publisher connection (ack, nack, TCP / channel / connection torn down between publish and confirm, dropped at the handshake, exchange.declare refused, confirmed then dropped); (e) every sequence of <=2 environment events {nothing, audit file deleted, audit directory removed, file renamed away} between 2-3 sign requests on one server; (f) every history of <=3 sign requests x 6 client identities (by fingerprint; issued by either of two configured client CAs, colliding pairwise on public key, subject and issuer) on one server, each record compared with the same request alone on a fresh server; (g) the real relic binary with an audit file configured, each of 16 workers appending to one log: every signature type with a sample input (appx, pe-coff x2, appmanifest, vsix, apk, cab, dmg, msi, xar, xap, jar, ps x3, cat, rpm, deb, mach-o, pgp, cosign) x digest {flag left out, md5, sha1, sha224, sha256, sha384, sha512} x input {named file with -o, and - quick: for the flag left out and sha1, thorough: for every digest - named file in place, file redirected to stdin, pipe on stdin} x key {rsaA; p256A with default/sha384}, and for pgp: front end {sign -T pgp, sign-pgp -u KEY, sign-pgp -u CONF:KEY} x 7 output forms (detached, armored, text mode, cleartext, inline, inline armored, with ignored gpg options) x input {file argument, pipe, redirected file} x output {-o file, stdout} x 7 digests; an invocation that exits 0 and wrote its output must have appended exactly one JSON line naming the requested key and type, a digest that the produced signature itself names and the certificate it points at (independent reader of OpenPGP packets incl. RPM signature header and .deb _gpg member, CMS SignerInfo wherever a DER SignedData stands, in the signature members of zip containers and in script signature blocks, XML-DSig SignatureMethod, APK v2 block, cosign layer descriptor); plus audit sink {directory missing, path is a directory, /dev/full} x 7 ways of signing: the command must not report success; (h) one in-process server with the file sink: every sample x 7 digests (+ p256A/sha384) and pgp x 5 output forms x 7 digests through the real /sign handler, same oracle plus client name/ip/file name. states = executions, transitions = choice points. distinct_nontrivial = executions with at least one fault / preemption")
-	run.Assume("the audit file is an in-memory file with kernel O_APPEND semantics (atomic positioned append) and per-descriptor offsets otherwise")
-	run.Assume("a half-written record caused by an injected short write ends the history (the file is then no longer line-structured through no fault of relic)")
+	run.Rule("(a) every history of <=3 requests from {sign rsaA/sha256, sign p256A/sha384, refused request} x sink configuration {file, file in missing directory, file+refusing broker, none} x every combination of <=2 (thorough 4) environment answers other than success over the audit file's system calls (open: EACCES/EISDIR/ENOSPC; each write(2)/pwrite(2), whether issued by File.Write/WriteAt - which call again for the remainder after a short count, that call being answered anew - or by the program itself on the raw descriptor through SyscallConn/Fd: ENOSPC, EIO, half of the buffer then ENOSPC, and a SHORT COUNT WITHOUT AN ERROR of 1 byte / half the buffer / all but the last byte, as the kernel reports when a size limit, a quota or the end of the device is reached mid-write; close: EIO; seek/stat/read/readat/truncate/sync/chmod, should the sink use them: EIO); a 2xx response requires exactly one complete record line for that request in the file when the first response byte is written, whatever the answers were; (b) every interleaving with <=3 preemptions for 2 threads and <=2 for 3 threads (thorough: 4 and 3) of concurrent /sign handlers over hooked mutex, token and audit-file operations; (c) the standalone pipeline x every combination of <=2 (thorough 3) open/write answers incl. the short counts; (d) every history of <=2 requests x {broker only, broker + file} x every choice of what a loopback AMQP broker does with each publisher connection (ack, nack, TCP / channel / connection torn down between publish and confirm, dropped at the handshake, exchange.declare refused, confirmed then dropped); (e) every sequence of <=2 environment events {nothing, audit file deleted, audit directory removed, file renamed away} between 2-3 sign requests on one server; (f) every history of <=3 sign requests x 6 client identities (by fingerprint; issued by either of two configured client CAs, colliding pairwise on public key, subject and issuer) on one server, each record compared with the same request alone on a fresh server; (g) the real relic binary with an audit file configured, each of 16 workers appending to one log: every signature type with a sample input (appx, pe-coff x2, appmanifest, vsix, apk, cab, dmg, msi, xar, xap, jar, ps x3, cat, rpm, deb, mach-o, pgp, cosign) x digest {flag left out, md5, sha1, sha224, sha256, sha384, sha512} x input {named file with -o, and - quick: for the flag left out and sha1, thorough: for every digest - named file in place, file redirected to stdin, pipe on stdin} x key {rsaA; p256A with default/sha384}, and for pgp: front end {sign -T pgp, sign-pgp -u KEY, sign-pgp -u CONF:KEY} x 7 output forms (detached, armored, text mode, cleartext, inline, inline armored, with ignored gpg options) x input {file argument, pipe, redirected file} x output {-o file, stdout} x 7 digests; an invocation that exits 0 and wrote its output must have appended exactly one JSON line naming the requested key and type, a digest that the produced signature itself names and the certificate it points at (independent reader of OpenPGP packets incl. RPM signature header and .deb _gpg member, CMS SignerInfo wherever a DER SignedData stands, in the signature members of zip containers and in script signature blocks, XML-DSig SignatureMethod, APK v2 block, cosign layer descriptor); plus audit sink {directory missing, path is a directory, /dev/full} x 7 ways of signing: the command must not report success; (h) one in-process server with the file sink: every sample x 7 digests (+ p256A/sha384) and pgp x 5 output forms x 7 digests through the real /sign handler, same oracle plus client name/ip/file name. states = executions, transitions = choice points. distinct_nontrivial = executions with at least one fault / preemption")
+	run.Assume("the audit file is an in-memory file (verif/shim/vos) emulating *os.File system call by system call: kernel O_APPEND semantics (atomic positioned append), per-descriptor offsets otherwise, Seek/ReadAt/WriteAt/Stat/Truncate; a program that leaves the os.File API (SyscallConn, Fd) gets the descriptor of a real unlinked file mirroring the virtual one, and a byte budget on its raw write(2) is imposed by the real kernel through RLIMIT_FSIZE = write position + budget for the duration of the callback (SIGXFSZ ignored): the call returns the short count, and EFBIG - whatever errno the harness named - once nothing fits; the size of a raw write is not known beforehand, so 'half' is 64 bytes there (every record is longer; an execution in which the budget was not reached marks the run not exhaustive)")
+	run.Assume("all system calls made inside one SyscallConn callback are one atomic step for the scheduler")
+	run.Assume("a short write (with or without an error) ends the history after the request it hit (the file may then no longer be line-structured through no fault of relic); that request itself is judged: no 2xx unless its complete record is in the file")
 	run.Assume("(g),(h): a request that relic refuses (non-zero exit / non-2xx) is tallied and not judged; a produced output in which the independent reader finds no signature is tallied as not inspected (none on the unchanged tree); the recorded digest is required to be ONE of the digests the signature names")
 	run.Assume("AMQP: the broker is verif/amqpfake (protocol frames written from the 0-9-1 specification, checked against relic's own publisher in amqpfake_test.go); a broker that accepts the publish and then stays silent forever is not in the alphabet (the publisher has no timeout: that history never ends)")
 	run.Finish()
